@@ -629,6 +629,11 @@ impl BinArchive {
         self.text = new_text;
         self.labels = new_labels;
         self.pointers = new_pointers;
+        for cells in self.cstrings.values_mut() {
+            for cell in cells.iter_mut() {
+                *cell = adjust_pointer(*cell, address, amount_in_bytes, false);
+            }
+        }
         Ok(())
     }
 
@@ -650,6 +655,13 @@ impl BinArchive {
         self.text = new_text;
         self.labels = new_labels;
         self.pointers = new_pointers;
+        for cells in self.cstrings.values_mut() {
+            cells.retain(|cell| !(address..end).contains(cell));
+            for cell in cells.iter_mut() {
+                *cell = adjust_pointer(*cell, address, amount_in_bytes, true);
+            }
+        }
+        self.cstrings.retain(|_, cells| !cells.is_empty());
         Ok(())
     }
 
